@@ -5,7 +5,7 @@
    * and / are outside these theorems (differential-tested by harness/check_C16.py). *)
 From Coq Require Import ZArith List Bool.
 From V Require Import base.Cal gen.RdTables rd.RdBase rd.RdModel rd.RdAlgModel rd.RdAlgSpec
-  rd.RdAlgThm rd.RdAlgLaws rd.RdAlgLaws2 rd.RdAlgLaws3 rd.RdAlgLaws4.
+  rd.RdAlgThm rd.RdAlgLaws rd.RdAlgLaws2 rd.RdAlgLaws3 rd.RdAlgLaws4 rd.RdAlgQModel rd.RdAlgQThm rd.RdAlgQLaws.
 Open Scope Z_scope.
 
 (* after _fix: |months| < 12, |hours| < 24, |minutes| < 60, |seconds| < 60, |microseconds| < 10^6 *)
@@ -26,6 +26,14 @@ Print Assumptions C16_fix_total.
 Theorem C16_fix_is_spec : forall r, fix_rel r = spec_fix_rel r.
 Proof. exact fix_is_spec. Qed.
 Print Assumptions C16_fix_is_spec.
+
+(* declarative reading of one carry step: the sign-preserving carry that preserves the total is
+   unique, and it is what the code computes *)
+Theorem C16_carry_unique : forall b lo up lo' up', 0 < b ->
+  up' * b + lo' = up * b + lo -> Z.abs lo' < b -> 0 <= lo' * lo ->
+  carry b lo up = (lo', up').
+Proof. exact carry_unique. Qed.
+Print Assumptions C16_carry_unique.
 
 (* signs as documented: one-signed arguments keep their sign through every carry *)
 Theorem C16_fix_sign : forall r,
@@ -117,10 +125,19 @@ Theorem C16_add_neg_no_relative : forall d,
 Proof. exact no_relative_laws. Qed.
 Print Assumptions C16_add_neg_no_relative.
 
+(* more precisely: d + (-d) is d with its relative fields zeroed *)
+Theorem C16_add_neg_exact : forall d, add_rd d (neg d) = mkrd rel0 (leapdays d) (ab d) (wd d).
+Proof. exact add_neg_exact. Qed.
+Print Assumptions C16_add_neg_exact.
+
 (* bool(d) is false exactly when d has no field set *)
 Theorem C16_bool_false_iff_empty : forall d, rd_bool d = false <-> d = rd0.
 Proof. exact bool_false_iff_empty. Qed.
 Print Assumptions C16_bool_false_iff_empty.
+
+Theorem C16_bool_iff_eq_empty : forall d, rd_bool d = negb (eqb d rd0).
+Proof. exact bool_iff_eq_empty. Qed.
+Print Assumptions C16_bool_iff_eq_empty.
 
 (* two equal deltas added to (or subtracted from) any date / datetime give the same result,
    the same exception included *)
@@ -144,6 +161,16 @@ Theorem C16_scalar_laws : forall d,
   all_nonneg (rel (abs_rd d)) /\ abs_rd (abs_rd d) = abs_rd d.
 Proof. exact scalar_laws. Qed.
 Print Assumptions C16_scalar_laws.
+
+(* the relative part of a + b does not depend on the order of the operands *)
+Theorem C16_add_rel_comm : forall a b, rel (add_rd a b) = rel (add_rd b a).
+Proof. exact add_rel_comm. Qed.
+Print Assumptions C16_add_rel_comm.
+
+(* d * (p/q) for an exactly representable scalar: int(field * p/q) per field, then _fix *)
+Theorem C16_mul_q : forall d p q k, wf (mul_q d p q) /\ mul_q d k 1 = mul_int d k.
+Proof. exact mul_q_laws. Qed.
+Print Assumptions C16_mul_q.
 
 (* non-integer years or months (a rational p/q whose denominator does not divide p) are
    rejected with ValueError; integral ones are accepted as that integer *)
@@ -180,3 +207,55 @@ Theorem C16_mk_weeks : forall k days weeks,
   mk (set_days_weeks k days weeks) = mk (set_days_weeks k (days + weeks * 7) 0).
 Proof. exact mk_weeks. Qed.
 Print Assumptions C16_mk_weeks.
+
+(* ---- float-valued fields and normalized(): PARTIAL.
+   Full statement (not proved): for every relativedelta whose day/hour/minute/second/microsecond
+   fields are IEEE-754 doubles, the constructor's fields are normalised with the total preserved,
+   and normalized() returns integer fields, normalised, whose total differs from the exact total
+   by at most the rounding of normalized() (about a microsecond).
+   Proved part: the same statements for EXACT RATIONAL field values numerator/D (any common
+   denominator D > 0) with round(x, 11|10|8) taken as the identity -- i.e. for the values on
+   which double arithmetic is exact (dyadic, moderate size; the correspondence compares the model
+   with the implementation for denominators 2^j <= 256).  Missing: the rounding behaviour of
+   doubles outside that domain (differential-tested only). *)
+Theorem C16_float_fix_normalised_partial : forall D r, 0 < D ->
+  Z.abs (f_months (fix_q D r)) < 12 /\ Z.abs (f_hours (fix_q D r)) < 24 * D /\
+  Z.abs (f_minutes (fix_q D r)) < 60 * D /\ Z.abs (f_seconds (fix_q D r)) < 60 * D /\
+  Z.abs (f_us (fix_q D r)) < 1000000 * D.
+Proof. exact fix_q_normalised. Qed.
+Print Assumptions C16_float_fix_normalised_partial.
+
+Theorem C16_float_fix_total_partial : forall D r, 0 < D ->
+  rel_us (fix_q D r) = rel_us r /\ rel_months (fix_q D r) = rel_months r.
+Proof. exact fix_q_total. Qed.
+Print Assumptions C16_float_fix_total_partial.
+
+(* denominator 1 = the integer model of the theorems above *)
+Theorem C16_float_fix_one : forall r, fix_q 1 r = fix_rel r.
+Proof. exact fix_q_one. Qed.
+Print Assumptions C16_float_fix_one.
+
+(* normalized(): integer fields (a delta of the integer model), normalised, total within half a
+   microsecond of the exact total, months untouched; no rounding on integer-valued input *)
+Theorem C16_float_normalized_partial : forall D d, 0 < D ->
+  wf (normalized_q D d) /\
+  2 * Z.abs (rel_us (rel (normalized_q D d)) * D - rel_us (rel d)) <= D /\
+  rel_months (rel (normalized_q D d)) = rel_months (rel d).
+Proof. exact normalized_q_laws. Qed.
+Print Assumptions C16_float_normalized_partial.
+
+Theorem C16_float_normalized_integral : forall D d, 0 < D ->
+  normalized_q D (mkrd (scale_rel D (rel d)) (leapdays d) (ab d) (wd d)) = normalized d.
+Proof. exact normalized_q_integral. Qed.
+Print Assumptions C16_float_normalized_integral.
+
+(* operators on float-valued deltas (same idealisation): results normalised, -(-d) == d,
+   d + (-d) and d - d have no relative part *)
+Theorem C16_float_ops_partial : forall D a b, 0 < D ->
+  (normal_q D (rel (ctor_q D a)) /\ normal_q D (rel (neg_q D a)) /\ normal_q D (rel (abs_q D a)) /\
+   normal_q D (rel (add_q D a b)) /\ normal_q D (rel (sub_q D a b))) /\
+  neg_q D (neg_q D a) = ctor_q D a /\
+  (normal_q D (rel a) -> neg_q D (neg_q D a) = a /\
+     no_rel (add_q D a (neg_q D a)) = true /\ no_rel (sub_q D a a) = true).
+Proof. exact ops_q_laws. Qed.
+Print Assumptions C16_float_ops_partial.
